@@ -110,7 +110,11 @@ def shapes(tier, seed):
     # H14b: concurrent opens
     counters = [0, 2 ** 32 - 3, 2 ** 32 - 2, 2 ** 32 - 1, 'sym']
     for c in counters:
-        out.append({'h': 'threads', 'ops': ['open', 'open'], 'preempt': 2 if c in (0, 2 ** 32 - 2) else 1, 'yields': True, 'counter': c, 'max_paths': 200000})
+        if c in (0, 2 ** 32 - 2):
+            for i in range(6):
+                out.append({'h': 'threads', 'ops': ['open', 'open'], 'preempt': 2, 'yields': True, 'counter': c, 'max_paths': 200000, 'xpart': [i, 6, 8]})
+        else:
+            out.append({'h': 'threads', 'ops': ['open', 'open'], 'preempt': 1, 'yields': True, 'counter': c, 'max_paths': 200000})
         out.append({'h': 'async', 'ops': ['open', 'open'], 'counter': c, 'max_paths': 200000})
     # an open that fails (the device never answers) while another stream is opened concurrently and stays live; then two more opens
     for c in (0, 2 ** 32 - 2):
